@@ -145,6 +145,15 @@ PROPS['C08'] = {
     'trust': ['ASSUMED contract of <f64 as FromStr>::from_str (grammar from the std documentation; stub in kani/scalar_harness.rs)'],
 }
 
+PROPS['C05'] = {
+    'units': ['parser'],
+    'level': 'proof',
+    'claim': 'Tier 1 (block scalar helpers, each against a line-model oracle from YAML 1.2 section 8.1): skip_block_scalar_first_line_indent == fli_* (auto-detected indentation = largest column reached on the leading blank lines and the first content line, at least parent indentation + 1, one LF recorded per blank line); skip_block_scalar_indent == bsi_* (at most `indent` spaces per line, whole blank lines, one LF each) with the SAME postcondition for the single-lookahead branch and the chunked branch; scan_block_scalar_content_line appends exactly the characters up to the next break/end (buffered and raw path alike) and advances the mark by that many characters. For all inputs and all conforming input back ends, no bound.',
+    'technique': 'Verus: function-against-spec-function postconditions (recursive line-model oracles) with loop invariants',
+    'not_decided': ['tier 2/3: header parsing (chomping / indentation indicator), the folding of the main loop and the chomping tail of scan_block_scalar are not under contract yet, so "the text of the whole block scalar" is not decided'],
+    'trust': SCANNER_TRUST,
+}
+
 
 def trusted_base(pid):
     if not PROPS[pid].get('units'):
